@@ -768,6 +768,7 @@ where
     /// Safe to call concurrently with other `insert`/`remove`/`search` calls.
     pub fn insert(&self, id: u64, text: &str, now_ms: u64) -> Result<(), BM25Error> {
         // Shared with other mutations, exclusive against `compact_buckets`.
+        anda_db_utils::verif_await_read!(self.mutation_gate);
         let _mutation_guard = self.mutation_gate.read();
 
         // Tokenize the document
@@ -785,6 +786,7 @@ where
             });
         }
 
+        anda_db_utils::verif_point!("bm25.insert.start");
         // Phase 1: Update the postings collection
         let bucket_id = self.max_bucket_id.load(Ordering::Acquire);
         let tokens: usize = token_freqs.values().sum();
@@ -841,6 +843,7 @@ where
             }
         }
 
+        anda_db_utils::verif_point!("bm25.insert.postings-done");
         // Phase 2: Update bucket states
         // tokens_to_migrate: (old_bucket_id, token, size)
         let mut tokens_to_migrate: Vec<(u32, String, usize)> = Vec::new();
@@ -869,6 +872,7 @@ where
             }
         }
 
+        anda_db_utils::verif_point!("bm25.insert.buckets-done");
         // Phase 3: Create new buckets if needed
         if !tokens_to_migrate.is_empty() {
             let mut next_bucket_id = self.max_bucket_id.fetch_add(1, Ordering::Release) + 1;
@@ -950,6 +954,7 @@ where
     /// * `false` otherwise.
     pub fn remove(&self, id: u64, text: &str, now_ms: u64) -> bool {
         // Shared with other mutations, exclusive against `compact_buckets`.
+        anda_db_utils::verif_await_read!(self.mutation_gate);
         let _mutation_guard = self.mutation_gate.read();
 
         // Even when `doc_tokens` was already removed, continue through the
@@ -967,6 +972,7 @@ where
                 .fetch_sub(removed_tokens as u64, Ordering::Relaxed);
         }
 
+        anda_db_utils::verif_point!("bm25.remove.doc-tokens-removed");
         // Tokenize the document
         let token_freqs = {
             let mut tokenizer = self.tokenizer.clone();
@@ -1004,6 +1010,7 @@ where
             }
         }
 
+        anda_db_utils::verif_point!("bm25.remove.postings-done");
         // Drop empty postings atomically: a concurrent insert may have appended
         // a new entry after the guard above was released, in which case the
         // posting must survive. `remove_if` re-checks under the shard lock.
@@ -1019,6 +1026,7 @@ where
             }
         }
 
+        anda_db_utils::verif_point!("bm25.remove.empty-dropped");
         for (bucket_id, val) in buckets_to_update {
             if let Some(mut b) = self.buckets.get_mut(&bucket_id) {
                 // Mark as dirty, needs to be persisted
@@ -1045,6 +1053,7 @@ where
             }
         }
 
+        anda_db_utils::verif_point!("bm25.remove.buckets-done");
         // Other buckets may still reference this document in their serialized
         // doc_tokens (e.g. stale postings left by a remove() with non-original
         // text); mark them dirty so the next flush drops the reference.
@@ -1135,6 +1144,7 @@ where
         }
 
         // Shared with other mutations, exclusive against `compact_buckets`.
+        anda_db_utils::verif_await_read!(self.mutation_gate);
         let _mutation_guard = self.mutation_gate.read();
 
         // Phase 1: drop the document lengths. As in `insert`/`remove`, the
@@ -1856,6 +1866,7 @@ where
         // Exclusive: no mutation may observe — or add to — the half-rebuilt
         // bucket map. Every mutator takes the shared side of this gate before
         // touching any other lock, so the ordering is uniform and deadlock-free.
+        anda_db_utils::verif_await_write!(self.mutation_gate);
         let _mutation_guard = self.mutation_gate.write();
 
         let old_count = self.buckets.len();
@@ -1889,6 +1900,7 @@ where
             return (old_count, 1);
         }
 
+        anda_db_utils::verif_point!("bm25.compact.snapshot-done");
         // Step 2: Sort by size descending for better packing.
         token_sizes.sort_unstable_by_key(|b| std::cmp::Reverse(b.1));
 
@@ -1931,11 +1943,13 @@ where
             }
         }
 
+        anda_db_utils::verif_point!("bm25.compact.packed");
         // Step 4: Rebuild buckets.
         self.buckets.clear();
         let new_count = bins.len();
         let max_id = new_count.saturating_sub(1) as u32;
 
+        anda_db_utils::verif_point!("bm25.compact.cleared");
         for (i, (size, tokens)) in bins.into_iter().enumerate() {
             let bucket_id = i as u32;
 
